@@ -34,7 +34,15 @@ type C17Cfg struct {
 	Fault   string      `json:"fault"`   // none | down | stall | garble | reset | flood-down | oversize | pieces
 	Victim  int         `json:"victim"`
 	At      int         `json:"at"` // step at which the fault is offered
+	// fault "oversize": the announced length and the type of the offending frame (0: limit+1 under type 2)
+	OverLen  uint32 `json:"over_len,omitempty"`
+	OverType uint8  `json:"over_type,omitempty"`
 }
+
+// overLens: announced lengths beyond the limit, around the limit itself and around the places where a
+// 32-bit (signed or unsigned) length computation wraps, with and without the 32 bytes of a topic added.
+var overLens = []uint32{connMaxBuff + 1, connMaxBuff + 2, connMaxBuff + 31, connMaxBuff + 32, connMaxBuff + 33, 2 * connMaxBuff, 1 << 25,
+	1<<31 - 33, 1<<31 - 32, 1<<31 - 1, 1 << 31, 1<<31 + 1, 1<<32 - 65, 1<<32 - 33, 1<<32 - 32, 1<<32 - 31, 1<<32 - 5, 1<<32 - 2, 1<<32 - 1}
 
 const connMaxBuff = 1024 * 1024 * 20 // the documented size limit of a frame
 
@@ -47,6 +55,10 @@ func genC17(seed uint64, tier string) C17Cfg {
 	c.Fault = pickStr(r, []string{"none", "none", "none", "down", "down-heal", "down-heal", "stall", "garble", "reset", "flood-down", "oversize", "pieces"})
 	if c.Fault != "none" {
 		c.Victim = 1 + r.Intn(c.N)
+	}
+	if c.Fault == "oversize" {
+		c.OverLen = overLens[r.Intn(len(overLens))]
+		c.OverType = []uint8{2, 2, 1, 0, 3, 200}[r.Intn(6)]
 	}
 	sizes := []int{0, 1, 31, 32, 33, 4095, 4096, 4097, 65535, 65536, 65537}
 	big := []int{1 << 20}
@@ -274,7 +286,15 @@ func runC17(t *testing.T, spec RunSpec) *RunResult {
 								rc.conn.Write(f)
 								rc.conn.Write(frame(2, topic, []byte("second"), 6))
 							} else {
-								rc.conn.Write(frame(2, topic, []byte("announced-too-big"), connMaxBuff+1))
+								ol, ot := int(cfg.OverLen), cfg.OverType
+								if ol == 0 {
+									ol, ot = connMaxBuff+1, 2
+								}
+								ft := topic
+								if ot != 1 && ot != 2 {
+									ft = nil
+								}
+								rc.conn.Write(frame(ot, ft, []byte("announced-too-big"), ol))
 								rc.conn.Write(frame(2, topic, []byte("after-oversize"), 14))
 							}
 						}()
@@ -396,7 +416,7 @@ func runC17(t *testing.T, spec RunSpec) *RunResult {
 			bySender := map[int][]comm.InMsg{}
 			for _, r := range cw.received(to) {
 				m := r.msg
-				if bytes.Equal(m.Topic, rawTopic) {
+				if bytes.Equal(m.Topic, rawTopic) || (cfg.Fault == "oversize" && (string(m.Data) == "after-oversize" || bytes.HasPrefix(m.Data, []byte("announced-too-big")))) {
 					rawSeen = append(rawSeen, string(m.Data))
 					continue
 				}
@@ -487,7 +507,7 @@ func runC17(t *testing.T, spec RunSpec) *RunResult {
 					}
 				case "oversize":
 					if len(rawSeen) != 0 {
-						viol("oversize-accepted", fmt.Sprintf("a frame announcing %d bytes (limit %d) was not refused: %q surfaced", connMaxBuff+1, connMaxBuff, rawSeen))
+						viol("oversize-accepted", fmt.Sprintf("a frame of type %d announcing %d bytes (0: limit+1; limit %d) was not refused: %q surfaced", cfg.OverType, cfg.OverLen, connMaxBuff, rawSeen))
 					}
 				}
 			}
